@@ -8,7 +8,7 @@ use crate::ours::{decode_from, encode, Container, Spec};
 use crate::util::{first_diff, Rng};
 use crate::walk;
 
-pub const STEER: u64 = 26;
+pub const STEER: u64 = 42;
 
 pub fn n_cases(ctx: &Ctx) -> u64 {
     let base = match (ctx.variant.as_str(), ctx.thorough()) {
@@ -143,6 +143,24 @@ fn random_case(r: &mut Rng, ctx: &Ctx) -> Case {
     } else {
         0
     };
+    // LZMA2 with a small dictionary on runs of incompressible data of about one stored chunk:
+    // stored chunks a little longer than 64 KiB (the optimum parser's read-ahead is part of them)
+    // right where the encoder window moves
+    let (c, fam, len) = if !ctx.slow() && r.chance(1, 12) {
+        o.dict_size = *r.pick(&[4096u32, 4096, 8192, 1 << 15, 61_440, 1 << 16]);
+        if r.chance(3, 4) {
+            o.mode = EncodeMode::Normal;
+        }
+        o.preset_dict = None;
+        if o.lc + o.lp > 4 {
+            o.lc = 3;
+            o.lp = 0;
+        }
+        let chunk = if r.chance(1, 4) { Some(r.log_range(100_000, 2 << 20)) } else { None };
+        (Container::Lzma2 { chunk }, Family::StoredRuns, 250_000 + r.usize_below(400_000))
+    } else {
+        (c, fam, len)
+    };
     Case {
         spec: Spec { c, o },
         fam,
@@ -185,9 +203,109 @@ fn handmade_case(idx: u64) -> Vec<CaseOut> {
     }
 }
 
+/// Steering 26..39: a stored LZMA2 chunk that, with the optimum parser's read-ahead, is longer than
+/// 64 KiB and is collected while the encoder window moves (dictionary 4 KiB, normal mode): zero
+/// prefix of z bytes, 420 000 incompressible bytes, and a region dense with short matches where the
+/// sixth chunk ends. The layout follows a reproducer found during the seeded-change validation.
+fn stored_chunk_window_move_case(ctx: &Ctx, idx: u64) -> Vec<CaseOut> {
+    if ctx.slow() {
+        return vec![CaseOut::skip("lzma2|stored-chunk-window-move", "too large for the interpreter variants", "")];
+    }
+    let z = 6340 + (idx as usize - 26) * 40;
+    let mut x: u64 = 0x9E37_79B9_7F4A_7C15 ^ 1;
+    let mut data = vec![0u8; z];
+    data.extend((0..420_000).map(|_| {
+        x ^= x << 13;
+        x ^= x >> 7;
+        x ^= x << 17;
+        (x >> 32) as u8
+    }));
+    let start = z + 64_601 * 4 + 64_450;
+    let len = 3000;
+    let copy: Vec<u8> = data[start - 3500..start - 3500 + len].to_vec();
+    data[start..start + len].copy_from_slice(&copy);
+    for k in (0..len).step_by(6) {
+        data[start + k] ^= 0x55;
+    }
+    let spec = Spec { c: Container::Lzma2 { chunk: None }, o: LZMAOptions::new(4096, 3, 0, 2, EncodeMode::Normal, 64, MFType::BT4, 0) };
+    let cell = "lzma2|stored-chunk-window-move".to_string();
+    let desc = format!("LZMA2Writer dict=4096 normal bt4 nice=64: {z} zeros + 420000 random bytes + 3000-byte altered copy at {start}");
+    let bytes = match catch(|| encode(&spec, &data, &[data.len()], 0)) {
+        Err(p) => return vec![CaseOut::viol(cell, format!("enc-panic lzma2 @{}", p.site()), p.short_msg(), desc)],
+        Ok(Err(e)) => return vec![CaseOut::viol(cell, format!("enc-err lzma2 {:?}:{e}", e.kind()), "", desc)],
+        Ok(Ok(b)) => b,
+    };
+    match catch(|| decode_from(&spec, bytes.as_slice(), data.len() as u64, &[65536], data.len() + 4096)) {
+        Err(p) => vec![CaseOut::viol(cell, format!("dec-panic lzma2 @{}", p.site()), p.short_msg(), desc)],
+        Ok(d) => {
+            if !d.drain.is_ok() {
+                vec![CaseOut::viol(cell, format!("dec-err lzma2 {}", d.drain.err_string()), "", desc)]
+            } else if d.drain.out != data {
+                vec![CaseOut::viol(cell, "mismatch lzma2", first_diff(&d.drain.out, &data), desc)]
+            } else {
+                vec![CaseOut::held(cell, true, desc)]
+            }
+        }
+    }
+}
+
+/// Steering 40, 41: one `write` call that is handed 2 GiB (a memory-mapped file, say). `write` may
+/// take as little of it as it likes, but what it reports as taken has to round-trip.
+fn huge_write_case(ctx: &Ctx, idx: u64) -> Vec<CaseOut> {
+    use std::io::Write;
+    let cell = "huge-single-write".to_string();
+    if ctx.slow() {
+        return vec![CaseOut::skip(cell, "too large for the interpreter variants", "")];
+    }
+    let lzma2 = idx == 40;
+    let n = (1usize << 31) + if lzma2 { 0 } else { 5 };
+    let desc = format!("{} one write() call with a slice of {n} zero bytes (lazily zeroed pages), then finish()", if lzma2 { "LZMA2Writer" } else { "LZMAWriter" });
+    let o = LZMAOptions::new(1 << 16, 3, 0, 2, EncodeMode::Fast, 32, MFType::HC4, 0);
+    let res = catch(|| -> std::io::Result<(usize, Vec<u8>)> {
+        let big = vec![0u8; n];
+        if lzma2 {
+            let mut w = lzma_rust2::LZMA2Writer::new(Vec::new(), lzma_rust2::LZMA2Options { lzma_options: o.clone(), chunk_size: None });
+            let taken = w.write(&big)?;
+            Ok((taken, w.finish()?))
+        } else {
+            let mut w = lzma_rust2::LZMAWriter::new_use_header(Vec::new(), &o, None)?;
+            let taken = w.write(&big)?;
+            Ok((taken, w.finish()?))
+        }
+    });
+    let (taken, bytes) = match res {
+        Err(p) => return vec![CaseOut::viol(cell, format!("enc-panic {} @{}", if lzma2 { "lzma2" } else { "lzma-hdr-eos" }, p.site()), p.short_msg(), desc)],
+        Ok(Err(e)) => return vec![CaseOut::viol(cell, format!("enc-err huge-write {:?}:{e}", e.kind()), "", desc)],
+        Ok(Ok(x)) => x,
+    };
+    if taken == 0 || taken > n {
+        return vec![CaseOut::viol(cell, "write-count huge-write", format!("write() reported {taken} of {n} bytes"), desc)];
+    }
+    if taken > (64 << 20) {
+        return vec![CaseOut::skip(cell, format!("write() took {taken} bytes at once; decoding that much is left to the random cases"), desc)];
+    }
+    let spec = Spec { c: if lzma2 { Container::Lzma2 { chunk: None } } else { Container::LzmaHeaderMarker }, o };
+    match catch(|| decode_from(&spec, bytes.as_slice(), taken as u64, &[65536], taken + 4096)) {
+        Err(p) => vec![CaseOut::viol(cell, format!("dec-panic huge-write @{}", p.site()), p.short_msg(), desc)],
+        Ok(d) => {
+            if !d.drain.is_ok() || d.drain.out.len() != taken || d.drain.out.iter().any(|&b| b != 0) {
+                vec![CaseOut::viol(cell, "mismatch huge-write", format!("{} / {} bytes, {}", d.drain.out.len(), taken, d.drain.err_string()), desc)]
+            } else {
+                vec![CaseOut::held(cell, true, format!("{desc}: write() took {taken} bytes"))]
+            }
+        }
+    }
+}
+
 pub fn run_case(ctx: &Ctx, idx: u64) -> Vec<CaseOut> {
     if idx == 24 || idx == 25 {
         return handmade_case(idx);
+    }
+    if idx == 40 || idx == 41 {
+        return huge_write_case(ctx, idx);
+    }
+    if (26..40).contains(&idx) {
+        return stored_chunk_window_move_case(ctx, idx);
     }
     let case = make_case(ctx, idx);
     let mut dr = Rng::new(case.data_seed);
